@@ -235,12 +235,12 @@ C10_ASSUME = COMMON_ASSUME + [
 ]
 
 PROPS = {
-    'C20': dict(harnesses=c20, level='bounded symbolic verification (reduced scope): handler decisions and structural JSON shape over a handler-level model of net/http', assumptions=MINT_ASSUME + ['net/http and gorilla/mux modelled at the handler level: request = method + URL + path variables + body, response = recorded status and body'], outside=['byte-exactness of encoding/json output', 'gorilla/mux routing', 'websocket subscriptions (NUT-17)', 'cache expiry timing, CORS headers', 'success-path JSON shape of the melt / melt-quote / mint-quote / checkstate / restore handlers (their status codes and failure reporting are covered by VHarnessServerFaults; shape only for swap, mint, keys, quote state)']),
+    'C20': dict(harnesses=c20, level='bounded symbolic verification (reduced scope): handler decisions and structural JSON shape over a handler-level model of net/http', assumptions=MINT_ASSUME + ['net/http and gorilla/mux modelled at the handler level: request = method + URL + path variables + body, response = recorded status and body'], outside=['byte-exactness of encoding/json output', 'gorilla/mux routing', 'websocket subscriptions (NUT-17), incl. the JSON shape of the notifications websocket.go pushes (seed C20f lives there and is not detected)', 'cache expiry timing, CORS headers', 'success-path JSON shape of the melt / melt-quote / mint-quote / checkstate / restore handlers (their status codes and failure reporting are covered by VHarnessServerFaults; shape only for swap, mint, keys, quote state)']),
     'C19': dict(harnesses=c19, level='bounded symbolic verification: counters submitted vs counters stored per operation, Restore() executed whole over a symbolic signed/empty pattern, send killed at any storage / HTTP call then restored', assumptions=WALLET_ASSUME + C11_ASSUME, outside=['bolt.go', 'bip39', 'wallet crash points: one operation (send / melt paid or failed / receive / mint) from one starting state each; a melt left PENDING at the crash is not covered', 'the claim that a crashed wallet never re-submits a signed counter (false by design: the counter is advanced after the proofs are stored)', 'more than 4 batches']),
     'C08': dict(harnesses=c08, level='bounded symbolic verification: every HTTP request body produced by the real client.go is decoded and inspected', assumptions=WALLET_ASSUME, outside=['transport below client.go, side channels', 'receive from an untrusted mint with swap-to-trusted (incl. its SIG_ALL branch, which melts freshly swapped proofs), mint-to-mint swap, multi-mint payments: seed C08b lives there and is not detected', 'HTLC-locked receive (ReceiveHTLC); P2PK-locked receive only for locks on the wallet key without further tags']),
     'C17': dict(harnesses=c17, level='bounded symbolic verification (reduced scope): per-operation conservation step for one wallet against an honest-contract mint', assumptions=WALLET_ASSUME, outside=['multi-wallet / multi-mint histories as a whole (argued by composition)', 'swapToTrusted / MintSwap / MultiMintPayment', 'bolt.go', 'the real mint behind the fake (C01/C02/C05)']),
     'C18': dict(harnesses=c18, level='bounded symbolic verification of the real selection / swap-to-send code against an honest-contract mint', assumptions=WALLET_ASSUME, outside=['bolt.go', 'amounts above 2^5 per proof, more than 4 held proofs']),
-    'C04': dict(harnesses=c04, level='bounded symbolic verification: soundness formula, completeness and explicit mutation classes', assumptions=MINT_ASSUME + ['unforgeability stated explicitly: an arbitrary C is not the valid signature of its secret under one of the mint keys', 'distinct denominations / keysets have distinct private keys'], outside=['BIP-32 derivation collisions', 'hash-to-curve collisions']),
+    'C04': dict(harnesses=c04, level='bounded symbolic verification: soundness formula, completeness and explicit mutation classes', assumptions=MINT_ASSUME + ['unforgeability stated explicitly: an arbitrary C is not the valid signature of its secret under one of the mint keys', 'distinct denominations / keysets have distinct private keys'], outside=['BIP-32 derivation collisions', 'hash-to-curve collisions', 'Go memory-model data races inside one call, e.g. a shared scratch buffer in HashToCurve (seed C04e): the engine interleaves threads at storage / Lightning calls only']),
     'C09': dict(harnesses=c09, level='bounded symbolic verification of LoadMint / RotateKeyset / GenerateKeyset executed whole over the storage model', assumptions=MINT_ASSUME + C11_ASSUME, outside=['BIP-32 itself', 'file system, migration runner (InitSQLite summarised as: returns the database of that directory)']),
     'C11': dict(harnesses=c11, level='bounded symbolic verification: equality with reference terms written from NUT-00/02/13 over the same uninterpreted primitives', assumptions=C11_ASSUME, outside=['the primitives themselves (library code)', 'keyset ids shorter than 8 bytes (DeriveKeysetPath indexes 8 bytes)']),
     'C10': dict(harnesses=c10, level='bounded symbolic verification over an algebraic group model: completeness identities and equivalence of the accept condition with the NUT-12 equation', assumptions=C10_ASSUME,
